@@ -14,7 +14,15 @@ end of the box) -/
 def wrapProblem (L x y : Dy) (extra : Q := Q.ofInt 0) : Option String :=
   let lq := Q.ofDy L; let xq := Q.ofDy x; let yq := Q.ofDy y
   if !(Q.lt (Q.ofInt 0) lq) then none else
-  if !(inBox lq yq) then some s!"wrapped value {repr y} is outside the half-open box [0, L)" else
+  let w0 := wrap lq xq
+  let ulp0 := lq * ⟨1, 2 ^ 51⟩ + Q.abs xq * ⟨1, 2 ^ 51⟩
+  let circ := let d0 := Q.abs (yq - w0); let d1 := Q.abs (d0 - lq); if Q.lt d0 d1 then d0 else d1
+  if !(inBox lq yq) then
+    -- a stored coordinate that differs from the canonical one by more than rounding but at most the
+    -- documented retry perturbation was pushed over the box boundary by that perturbation
+    (if Q.lt (Q.ofInt 0) extra && Q.lt ulp0 circ && Q.le circ (ulp0 + extra) then
+      some s!"perturbed-out-of-box: the degeneracy-retry perturbation moved a canonical coordinate to {qShow yq}, outside the half-open box [0, L)"
+     else some s!"wrapped value {qShow yq} is outside the half-open box [0, L)") else
   let w := wrap lq xq
   -- rounding allowance: 2 ulp of L (relative 2^-51) plus 2 ulp of |x| (the quotient's rounding)
   let ulpL := lq * ⟨1, 2 ^ 51⟩
